@@ -189,6 +189,69 @@ fn check_parse<const B: usize, const L: usize>(m: &mut Mon, got: Result<Uint<B, 
     }
 }
 
+/// Drive a digit iterator through the consumption paths of `Iterator` other than plain `next`/`collect`
+/// and compare every observation with the expected digit slice.
+macro_rules! iter_protocol {
+    ($m:ident, $label:literal, $mk:expr, $want:expr, $salt:expr) => {{
+        let want: &[u64] = $want;
+        let n = want.len();
+        let salt: usize = $salt;
+        if let Some((lo, hi)) = $m.must_in($label, || $mk.size_hint()) {
+            $m.check(lo <= n && hi.map_or(true, |h| h >= n), concat!($label, ".size_hint"), || format!("bounds around {n}"), || format!("({lo}, {hi:?})"));
+        }
+        if let Some(v) = $m.must_in($label, || $mk.count()) {
+            $m.eq(concat!($label, ".count"), &v, &n);
+        }
+        if let Some(v) = $m.must_in($label, || $mk.last()) {
+            $m.eq(concat!($label, ".last"), &v, &want.last().copied());
+        }
+        for k in [0, 1, salt % (n + 2), n.saturating_sub(1), n, n + 1, n + 7] {
+            if let Some(v) = $m.must_in($label, || $mk.nth(k)) {
+                $m.eq(concat!($label, ".nth"), &v, &want.get(k).copied());
+            }
+            if let Some(v) = $m.must_in($label, || $mk.skip(k).collect::<Vec<u64>>()) {
+                $m.eq(concat!($label, ".skip"), &v, &want[k.min(n)..].to_vec());
+            }
+            if let Some(v) = $m.must_in($label, || {
+                // never call the iterator again after it returned None (the trait allows anything then)
+                let mut it = $mk;
+                let a = it.next();
+                if a.is_none() {
+                    return (a, None, None, true, 0);
+                }
+                let b = it.nth(k);
+                if b.is_none() {
+                    return (a, b, None, true, 0);
+                }
+                let c = it.next();
+                if c.is_none() {
+                    return (a, b, c, true, 0);
+                }
+                let (lo, hi) = it.size_hint();
+                let rest = it.count();
+                (a, b, c, lo <= rest && hi.map_or(true, |h| h >= rest), rest)
+            }) {
+                let e = (want.get(0).copied(), want.get(1 + k).copied(), want.get(2 + k).copied(), true, n.saturating_sub(3 + k));
+                $m.eq(concat!($label, ".next-nth-next"), &v, &e);
+            }
+        }
+        for st in [1, 2, 3, salt % 5 + 1, n.max(1), n + 1] {
+            if let Some(v) = $m.must_in($label, || $mk.step_by(st).collect::<Vec<u64>>()) {
+                $m.eq(concat!($label, ".step_by"), &v, &want.iter().copied().step_by(st).collect::<Vec<u64>>());
+            }
+        }
+        if let Some(v) = $m.must_in($label, || {
+            let mut it = $mk;
+            let head: Vec<u64> = it.by_ref().take(salt % (n + 1)).collect();
+            let tail: Vec<u64> = it.collect();
+            (head, tail)
+        }) {
+            let cut = salt % (n + 1);
+            $m.eq(concat!($label, ".take-then-rest"), &v, &(want[..cut].to_vec(), want[cut..].to_vec()));
+        }
+    }};
+}
+
 fn exec<const B: usize, const L: usize>(m: &mut Mon, op: &str, a: &[Arg]) {
     match op {
         "to_base" => {
@@ -218,6 +281,13 @@ fn exec<const B: usize, const L: usize>(m: &mut Mon, op: &str, a: &[Arg]) {
             }
             if let Some(v) = m.must_in("to_base_be", || x.to_base_be(base).collect::<Vec<u64>>()) {
                 m.eq("to_base_be", &v, &be);
+            }
+            // the digit iterators driven through the other consumption paths of the Iterator trait
+            // (nth / skip / step_by / count / last / size_hint, also after partial consumption)
+            let salt = (limbs.first().copied().unwrap_or(0) ^ base.rotate_left(17)) as usize;
+            if B <= 256 || salt % 8 == 0 {
+                iter_protocol!(m, "to_base_le.iter", x.to_base_le(base), &le[..], salt);
+                iter_protocol!(m, "to_base_be.iter", x.to_base_be(base), &be[..], salt);
             }
             if let Some(r) = m.must_in("from_base_le", || Uint::<B, L>::from_base_le(base, le.iter().copied())) {
                 match r {
